@@ -38,6 +38,10 @@ def same_num(x, y):
 
 def check_axis(spec, got, N):
     """None or a description of the mismatch between the dims argument entry and the dim vector"""
+    if spec is not None and spec[0] == 'strs':
+        if got[0] != 'strs' or got[1] != spec[1]:
+            return 'full-length string vector was not kept as given'
+        return None
     if got[0] != 'nums':
         return f'dim vector is {got[0]}'
     g = vals(got)
@@ -86,6 +90,9 @@ def oracle(case, obs):
     ds = case['datashape']
     shape = ds[1:] if stack else ds
     rank = len(shape)
+    bad_strs = lambda spec, n: spec is not None and spec[0] == 'strs' and len(spec[1]) != n
+    if obs['init'] is None and any(bad_strs(d, shape[n]) for n, d in enumerate((case['dims'] or [])[:rank])):
+        return None          # a string vector of the wrong length is refused (documented)
     if obs['init'] is None:
         return {'key': 'construction-raised', 'what': f"Array(...) raised {obs.get('init_exc')} for dims={case['dims']} shape={ds}"}
     o = obs['init']
@@ -121,6 +128,10 @@ def oracle(case, obs):
             if op['n'] >= rank:
                 if not oo.get('raised'):
                     return {'key': 'setter-out-of-range-accepted', 'what': f'{op}'}
+                continue
+            if op['op'] == 'set_dim' and bad_strs(op['dim'], shape[op['n']]):
+                if not oo.get('raised'):
+                    return {'key': 'string-vector-of-wrong-length-accepted', 'what': f'{op}'}
                 continue
             if oo.get('raised'):
                 return {'key': 'setter-raised', 'what': f"{op}: {oo.get('exc')}"}
